@@ -50,10 +50,11 @@ def _work_idx(w):
 
 def _work(spec):
     """Runs in a worker (or inline): returns plain-data results for its slice of the paths."""
-    (entry, post, known, witness_terms, on_violation, timeout_ms, max_paths, path_timeout_ms, deadline_s, widx, nworkers) = spec
+    (entry, post, known, witness_terms, on_violation, timeout_ms, max_paths, path_timeout_ms, deadline_s, stop_at, widx, nworkers) = spec
     paths = E.explore(entry, max_paths=max_paths, timeout_ms=path_timeout_ms, deadline_s=deadline_s)
     out = {'paths': [(p.kind, p.describe()) for p in paths], 'instances': [], 'inlined': set(), 'assumed': set()}
     unk_count = {}
+    replayed = {}
     for p in paths:
         out['inlined'] |= p.run.inlined
         out['assumed'] |= p.run.assumed
@@ -69,6 +70,11 @@ def _work(spec):
         for n, f, npc, nax, info in obs:
             if isinstance(f, bool):
                 f = z3.BoolVal(f)
+            if stop_at is not None and time.time() > stop_at:
+                # a budgeted search (bounded model query): out of time is 'unknown', never a verdict
+                out['instances'].append({'name': n, 'verdict': 'unknown', 'dt': 0.0, 'pi': pi, 'describe': p.describe(),
+                                         'lemma': info == 'lemma', 'reason': 'search budget exhausted'})
+                continue
             if unk_count.get(n, 0) >= 2:
                 # this obligation already timed out twice in this worker: do not burn the budget on every path
                 out['instances'].append({'name': n, 'verdict': 'unknown', 'dt': 0.0, 'pi': pi, 'describe': p.describe(),
@@ -104,10 +110,21 @@ def _work(spec):
                     txt += model_text(m, witness_terms(p) if witness_terms else None)
                     inst['model'] = txt
                     if on_violation is not None:
-                        try:
-                            inst['replay'], inst['reproduced'] = on_violation(n, p, m)
-                        except Exception as e:  # replay construction must never turn into a verdict
-                            inst['replay'], inst['reproduced'] = {'replay_error': repr(e)}, None
+                        # native replays are expensive (a fresh interpreter each): once an obligation has been reproduced in
+                        # this worker, or replayed three times without reproducing, further counter-models are kept as
+                        # models only (the verdict 'sat' is unaffected)
+                        st = replayed.setdefault(n, [0, False])
+                        if st[1] or st[0] >= 3:
+                            inst['replay'] = {'replay_skipped': 'already reproduced on another path' if st[1] else 'three counter-models of this obligation did not reproduce'}
+                            inst['reproduced'] = None
+                        else:
+                            st[0] += 1
+                            try:
+                                inst['replay'], inst['reproduced'] = on_violation(n, p, m)
+                            except Exception as e:  # replay construction must never turn into a verdict
+                                inst['replay'], inst['reproduced'] = {'replay_error': repr(e)}, None
+                            if inst['reproduced']:
+                                st[1] = True
             out['instances'].append(inst)
     out['second'] = dict(E.SECOND_STATS)
     return out
@@ -115,7 +132,7 @@ def _work(spec):
 
 def verify_function(chk, fname, entry, post=None, timeout_ms=10000, max_paths=4000, expect_paths=1,
                     witness_terms=None, on_violation=None, known=None, path_timeout_ms=1500, deadline_s=None,
-                    allow_end_only=False, workers=1, only=None, rename=None, refute=None):
+                    allow_end_only=False, workers=1, only=None, rename=None, refute=None, stop_at=None):
     """
     entry(it) -> value            : sets up symbolic inputs and calls the real function
     post(path) -> [(name, formula[, 'lemma'])] : postcondition instances for a terminated path (kind return/raise);
@@ -127,7 +144,7 @@ def verify_function(chk, fname, entry, post=None, timeout_ms=10000, max_paths=40
     global _SPEC
     t0 = time.time()
     fr = FunctionResult()
-    base = (entry, post, known, witness_terms, on_violation, timeout_ms, max_paths, path_timeout_ms, deadline_s)
+    base = (entry, post, known, witness_terms, on_violation, timeout_ms, max_paths, path_timeout_ms, deadline_s, stop_at)
     if workers > 1:
         _SPEC = base
         ctx = multiprocessing.get_context('fork')
